@@ -728,3 +728,14 @@ def _register_shared_round9():
 
 
 # _register_shared_round9() is called by the driver after this module is fully imported (no import cycles)
+
+
+# "the per-bin weight sums of a measurement": column b of the sums of weights of a patch pair is the weight sum of tree b (C01 unit on
+# process_patch_pair), and tree b holds the records of bin b under the closed-side rule (build_trees units above)
+def _register_shared_weights():
+    from . import C01 as _C01
+    unit(P, "process_patch_pair", fuc=["yaw.correlation.measurements:process_patch_pair"],
+         cases=[dict(second=s, weighted=False) for s in ("binned", "unbinned")], trusted=["BinnedTrees.__iter__ (C07)"])(_C01.u_ppp)
+
+
+# _register_shared_weights() is called by the driver after this module is fully imported (no import cycles)
